@@ -1,10 +1,13 @@
 #!/bin/bash
-# usage: tools/seed_eval.sh <worktree-with-SEED> <prop> [tier]
-# 1. demo passes on a clean copy of /repo HEAD and fails with the patch; 2. runs ./check <prop> against the patched copy.
+# usage: tools/seed_eval.sh <dir> <prop> [tier]     <dir> is a seeded/<id>-<n> directory (patch.diff, demo.py, meta.json)
+#                                                   or a scratch worktree that holds them under <dir>/SEED
+# 1. demo passes on a clean export of /repo HEAD and fails with the patch; 2. runs ./check <prop> against the patched
+# export (VERIF_REPO: evidence goes to evidence/scratch, never to the committed evidence).  Prints one RESULT line.
 W=$1; P=$2; T=${3:-quick}
+S=$W; [ -d $W/SEED ] && S=$W/SEED
 D=$(mktemp -d /tmp/seedevalXXXX)
 git -C /repo archive HEAD | tar -x -C $D
-cp -r $W/SEED $D/SEED
+mkdir $D/SEED; cp $S/patch.diff $S/demo.py $D/SEED/
 cd $D
 PARANOID_REPO=$D timeout 900 /verif/.venv/bin/python SEED/demo.py > $D/demo_clean.log 2>&1; RC_CLEAN=$?
 git init -q . 2>/dev/null; git apply --whitespace=nowarn SEED/patch.diff || { echo "PATCH DOES NOT APPLY"; rm -rf $D; exit 9; }
@@ -12,5 +15,6 @@ PARANOID_REPO=$D timeout 900 /verif/.venv/bin/python SEED/demo.py > $D/demo_mut.
 echo "demo: clean rc=$RC_CLEAN mutated rc=$RC_MUT ($(tail -1 $D/demo_mut.log | cut -c1-150))"
 cd /verif && VERIF_REPO=$D ./check $P --tier $T > $D/check.log 2>&1; RC=$?
 echo "check $P [$T] exit=$RC"; grep -h "VIOLATION\|failed:\|undecided\|checker error" $D/check.log | cut -c1-260 | head -8
-mkdir -p /verif/seeded/_runs; cp $D/check.log /verif/seeded/_runs/$(basename $W)_$P.log
+mkdir -p /verif/seeded/_runs; cp $D/check.log /verif/seeded/_runs/$(basename $W)_${P}_$T.log
+echo "RESULT seed=$(basename $W) prop=$P tier=$T demo_clean=$RC_CLEAN demo_mutated=$RC_MUT check_exit=$RC"
 rm -rf $D
